@@ -2,6 +2,8 @@ CONSTANTS
   N = 4
   K = 0
   Coupled = TRUE
+  B = 0
+  HCap = 0
 SPECIFICATION Spec
 INVARIANT NoDeadlock
 PROPERTIES AllComplete
